@@ -532,4 +532,49 @@ theorem stageBlockRoot_keeps_closed {E : Env H} {cfg : Cfg} (hstrict : StrictPre
           have := set_keeps_closed hstrict hcl hrange hsr
           cases o <;> (simp only; rw [blockTree_set_same]; exact this)
 
+/-! ### threading the stages through `runStages` -/
+
+omit [DecidableEq H] in
+theorem runStages_cons_none {f : Node H → Option Res × Node H} {rest : List (Node H → Option Res × Node H)}
+    {nd : Node H} (h : (f nd).1 = none) : runStages (f :: rest) nd = runStages rest (f nd).2 := by
+  rw [runStages]
+  cases hf : f nd with
+  | mk r nd' =>
+    rw [hf] at h
+    simp only at h
+    subst h
+    rfl
+
+omit [DecidableEq H] in
+theorem runStages_last_some {f : Node H → Option Res × Node H} {nd : Node H} {r : Res}
+    (h : (f nd).1 = some r) : (runStages [f] nd).1 = r := by
+  rw [runStages]
+  cases hf : f nd with
+  | mk r' nd' =>
+    rw [hf] at h
+    simp only at h
+    subst h
+    rfl
+
+/-- `_satisfy_block_hash_tree` touches only the block hash trees -/
+theorem stageBlockHashes_frame (E : Env H) (cfg : Cfg) (pick : List Nat → Nat) (shnum segnum : Nat) (v : View H)
+    (nd : Node H) :
+    (stageBlockHashes E cfg pick shnum segnum v nd).2.known = nd.known ∧
+    (stageBlockHashes E cfg pick shnum segnum v nd).2.ctTree = nd.ctTree ∧
+    (stageBlockHashes E cfg pick shnum segnum v nd).2.shareTree = nd.shareTree := by
+  unfold stageBlockHashes
+  dsimp only
+  repeat' split
+  all_goals exact ⟨rfl, rfl, rfl⟩
+
+/-- `_satisfy_ciphertext_hash_tree` touches only the crypttext hash tree -/
+theorem stageCtHashes_frame (E : Env H) (cfg : Cfg) (pick : List Nat → Nat) (segnum : Nat) (v : View H)
+    (nd : Node H) :
+    (stageCtHashes E cfg pick segnum v nd).2.known = nd.known ∧
+    (stageCtHashes E cfg pick segnum v nd).2.blockTrees = nd.blockTrees ∧
+    (stageCtHashes E cfg pick segnum v nd).2.shareTree = nd.shareTree := by
+  unfold stageCtHashes
+  repeat' split
+  all_goals exact ⟨rfl, rfl, rfl⟩
+
 end Tahoe.Integrity
